@@ -327,6 +327,19 @@ def module_work(name, mod, tier, rng, viols, cells, counters, samples, probe, ca
                                 '%r is valid and so is %r (check position %d: %r -> %r)' % (v, t, p, v[p], c),
                                 {'module': name, 'number': v, 'other': t, 'generator': gname, 'kind': 'm2'})
             mapped_rules.setdefault(L, []).append((gname, g, rule))
+            # further check blocks computed by the same generator (the 9-digit base inside a 14-digit number): a rule at
+            # other positions that every number of the class obeys (at least eight of them) joins the converse (M3)
+            pool_all = vs + [s for s in synth if len(s) == L]
+            if len(pool_all) >= 8:
+                for (r2, h2) in sorted(tally.items(), key=lambda kv: kv[0][1]):
+                    k2, i2, w2 = r2
+                    if r2 == rule or set(range(i2, i2 + w2)) & set(range(i, i + k)) or k2.split('@')[0] == 'whole':
+                        continue
+                    if any(set(range(i2, i2 + w2)) & set(range(rr[1], rr[1] + rr[2])) for (_gn, _g, rr) in mapped_rules.get(L, [])):
+                        continue
+                    if all(call_gen(g, arg_for(r2, v)) == v[i2:i2 + w2] for v in pool_all):
+                        mapped_rules[L].append((gname, g, r2))
+                        counters['secondary_check_blocks'] = counters.get('secondary_check_blocks', 0) + 1
         # M1b: a length class this generator could not be mapped on although validate() consults it there, while a
         # sibling length is mapped with the check characters at the end: the public generator is given the rest of
         # the number in the same way (end-relative) and must reproduce the characters the valid number carries
@@ -368,7 +381,7 @@ def module_work(name, mod, tier, rng, viols, cells, counters, samples, probe, ca
             checkpos.update(range(i, i + k))
         pool = [v for v in corpus if len(v) == L][:6] + [s for s in synth if len(s) == L][:6 if tier == 'quick' else 300]
         for v in pool:
-            for _ in range(6 if tier == 'quick' else 60):
+            for _ in range((40 if len(rules) > 1 else 6) if tier == 'quick' else 60):
                 s = list(v)
                 idx = [q for q in range(L) if q not in checkpos and s[q].isdigit()]
                 if not idx:
